@@ -3,21 +3,22 @@
 # (evidence files and generated Coq files of the clean tree are put back afterwards)
 set -u
 patch=$1; shift
-cd /verif
-bak=$(mktemp -d /verif/.cache/evbak.XXXXXX)
+R=${VERIF_REPO:-/repo}          # the checkout the checks look at (a snapshot under `vp run --with-repo`)
+cd "$(dirname "$0")/.."
+mkdir -p .cache; bak=$(mktemp -d $PWD/.cache/evbak.XXXXXX)
 cp -a evidence/. "$bak"/
-git -C /repo apply "$patch" || { echo "patch does not apply"; rm -rf "$bak"; exit 2; }
+git -C "$R" apply "$patch" || { echo "patch does not apply"; rm -rf "$bak"; exit 2; }
 for p in "$@"; do
   echo "=== $p with $(basename $(dirname $patch))"
   python3 check.py $p 2>&1 | grep -v "^\[$p\] proofs ok" | tail -6
   echo "exit=${PIPESTATUS[0]}"
 done
-git -C /repo checkout -- .
-git -C /repo status --short | head -3
+git -C "$R" apply -R "$patch" || echo "REVERT FAILED in $R"
+git -C "$R" status --short 2>/dev/null | head -3
 cp -a "$bak"/. evidence/
 rm -rf "$bak"
 python3 -c "
-import sys; sys.path.insert(0,'/verif')
+import sys; sys.path.insert(0,'.')
 from lib import common
 print('regen after revert:', common.regen()[0])
 print('harness rebuilt on the clean tree:', common.build_harness(False)[0], common.build_harness(True)[0])"
